@@ -372,7 +372,7 @@ theorem absNode_kill_arr {H : Home} {d : Doc} {p u : Ticket} {pe : Elem} {nodes 
     absNode (kill d (some u)) = adel (absNode d) p u := by
   have hAp : absNode d p = some (.arr (ll d nodes)) := by simp [absNode, hd, hr, hb, absBody, ll]
   obtain ⟨nu, hnu, hnue, hlu⟩ := mem_ll.1 hu
-  have hparu : H.par u = some p := w.arrMem _ _ _ _ _ _ hd hb hnu hnue
+  have hparu : H.par u = some p := w.arrMem _ _ _ _ _ _ hd hr hb hnu hnue
   have hpu : p ≠ u := by
     intro h; subst h
     have := skel_none_iff.1 hul pe hd
@@ -412,18 +412,22 @@ theorem absNode_kill_arr {H : Home} {d : Doc} {p u : Ticket} {pe : Elem} {nodes 
       | none => rfl
       | some e =>
         simp only []
-        congr 2
+        cases hre : e.removed with
+        | true => rfl
+        | false =>
+        simp only [Bool.false_eq_true, if_false]
+        congr 1
         apply absBody_congr
         · intro keys m k mm hbe hm
           have : mm.child ≠ u := by
             intro hx
-            have := (w.objMem _ _ _ _ _ _ hdt hbe hm).2.2
+            have := (w.objMem _ _ _ _ _ _ hdt hre hbe hm).2.2
             rw [hx, hparu] at this; injection this with this; exact h2 this.symm
           simp [live_kill, this]
         · intro ns mv n c hbe hn hc
           have : c ≠ u := by
             intro hx
-            have := w.arrMem _ _ _ _ _ _ hdt hbe hn hc
+            have := w.arrMem _ _ _ _ _ _ hdt hre hbe hn hc
             rw [hx, hparu] at this; injection this with this; exact h2 this.symm
           simp [live_kill, this]
 
@@ -449,7 +453,7 @@ theorem step_del {H : Home} {tw : Ticket → Bool} {d : Doc} {L : Int} {src : So
   obtain ⟨ue, hue, hur, hul, _⟩ := absNode_leaf hbu hbl
   have pa := pl _ _ _ _ hd hb
   obtain ⟨nu, hnu, hnue, _⟩ := mem_ll.1 hmem
-  have hupar : ue.parent = some p := (w.par _ _ hue).trans (w.arrMem _ _ _ _ _ _ hd hb hnu hnue)
+  have hupar : ue.parent = some p := (w.par _ _ hue).trans (w.arrMem _ _ _ _ _ _ hd hr hb hnu hnue)
   have hnc : skel d u = none :=
     skel_none_iff.2 (fun e he => by rw [hue] at he; injection he with he; subst he; exact hul)
   have horphu : orphaned d tw orphanFuel u = false := by
@@ -471,11 +475,11 @@ theorem step_del {H : Home} {tw : Ticket → Bool} {d : Doc} {L : Int} {src : So
 theorem vis_sim {H H' : Home} {d d' : Doc} {ρ : Ticket → Ticket} {N : Int} (w : WF H d) (w' : WF H' d')
     (s : Sim ρ N (absNode d) (absNode d')) {a : Ticket} (haN : a.lamport ≤ N) (hl : live d a = true) :
     vis d' (ρ a) = (vis d a).map ρ := by
-  obtain ⟨e, hd, _, ha⟩ := absNode_live hl
+  obtain ⟨e, hd, her, ha⟩ := absNode_live hl
   have hn := s.node a haN
   rw [ha] at hn
   have hl' : live d' (ρ a) = true := by rw [live_eq_absNode, hn]; rfl
-  obtain ⟨e', hd', _, ha'⟩ := absNode_live hl'
+  obtain ⟨e', hd', her', ha'⟩ := absNode_live hl'
   rw [ha'] at hn
   simp only [Option.map_some, Option.some.injEq] at hn
   simp only [vis, hd, hd']
@@ -498,7 +502,7 @@ theorem vis_sim {H H' : Home} {d d' : Doc} {ρ : Ticket → Ticket} {N : Int} (w
         | none => exact absurd hk' hk
         | some c =>
           obtain ⟨_, mm, hmm, _⟩ := liveMember_some hk'
-          exact (w'.objMem _ _ _ _ _ _ hd' hbe' hmm).1)
+          exact (w'.objMem _ _ _ _ _ _ hd' her' hbe' hmm).1)
       (by
         intro k hk
         have hk2 := hdom k hk
@@ -506,7 +510,7 @@ theorem vis_sim {H H' : Home} {d d' : Doc} {ρ : Ticket → Ticket} {N : Int} (w
         | none => exact absurd hk' hk2
         | some c =>
           obtain ⟨_, mm, hmm, _⟩ := liveMember_some hk'
-          exact (w.objMem _ _ _ _ _ _ hd hbe hmm).1)]
+          exact (w.objMem _ _ _ _ _ _ hd her hbe hmm).1)]
     rw [List.map_filterMap]
     apply filterMap_congr'
     intro k _
